@@ -39,9 +39,8 @@ LEVEL_TEXT = {
             "(operator trees of every arity the model has); so a coherent world stays coherent under every assignment that returns normally, and in a "
             "coherent world every immediately bound property equals its expression recomputed from scratch. (3) Growth (PropGrow.v): coherence is established "
             "and kept by every history that creates properties, attaches plain observers, binds fresh properties (immediate mode, expressions over existing "
-            "properties incl. bound ones, repeated inputs) and assigns to inputs; also by histories that bind existing properties, unbound or already bound (which may have readers; rebinding is reset() then assignment), and call reset(). "
-            "PARTIAL: observers that write, moves and "
-            "destruction between assignments are covered by the extracted checker check_c02 on every reached world and by correspondence; known finding "
+            "properties incl. bound ones, repeated inputs) and assigns to inputs; also by histories that bind existing properties, unbound or already bound (which may have readers; rebinding is reset() then assignment), call reset() and destroy properties that no live binding reads. "
+            "PARTIAL: observers that write and moves are covered by the extracted checker check_c02 on every reached world and by correspondence; known finding "
             "KF-C02-aborted-walk (an exception cutting a notification walk short) is re-confirmed on every run.", '6/C02'),
     'C03': ("Machine-checked on the executable model of Property::setHelper: an equal value changes nothing and logs nothing; any other value notifies every "
             "about-to-change observer with (old, new) while get() = old, stores, then notifies every changed observer with the new value while get() = new, each "
@@ -60,8 +59,9 @@ LEVEL_TEXT = {
             "of whose bindings belong to one explicit evaluator and whose observers do not act, setHelper of the executable model is the abstract marking "
             "assignment and evaluateAll the abstract pass; these state conditions hold in every world reached by creating properties, plain observers, fresh "
             "evaluator-driven bindings, assignments and evaluateAll, and in such a network the registration order is a duplicate-free dependency order; hence "
-            "after ONE evaluateAll every registered bound property equals its expression recomputed from scratch (no further premise). PARTIAL: mixed worlds (immediate and evaluator-driven bindings "
-            "together, several evaluators, acting observers, rebinding/reset/moves/destruction) are covered by the extracted checker "
+            "after ONE evaluateAll every registered bound property equals its expression recomputed from scratch (no further premise); the same for histories "
+            "that also reset() bound properties (PropGrowLazyMore.v), and a reset binding is dead and out of the registry evaluateAll iterates. PARTIAL: mixed worlds (immediate and evaluator-driven bindings "
+            "together, several evaluators, acting observers, rebinding/moves/destruction) are covered by the extracted checker "
             "check_c06_after_evalall on every evaluateAll of every generated history and by correspondence.", '6/C06'),
     'C07': ("Machine-checked on the executable model: every direct write to a bound property raises ReadOnlyProperty and leaves the world unchanged; reset keeps "
             "value and observers, removes the updater and re-enables the normal write protocol; destroying/replacing a binding touches no property and no "
@@ -104,7 +104,9 @@ LEVEL_TEXT = {
     'C01': ("Machine-checked on the executable model of Signal::Impl: an emission with non-re-entrant slot bodies logs EXACTLY one invocation per connected, "
             "unblocked connection, in table order, with bound values followed by the leading emitted values the callable needs, and one queued invocation per "
             "deferred connection (C01_emit_exact); with arbitrary re-entrant bodies never twice (C01_at_most_once); connect/disconnect/block change exactly the "
-            "entry they name and ids are fresh, so the table is the finite map of connections made and not yet disconnected, in every reachable world. "
+            "entry they name and ids are fresh, so the table is the finite map of connections made and not yet disconnected, in every reachable world; "
+            "single-shot: with arbitrary bodies the emission that invokes a single-shot connection leaves its id stale however it ends, and a stale id is in no "
+            "table and inactive through every later history (exactly one emission in its life). "
             "Tie: differential execution of generated histories (all five flavours, 4 signal signatures incl. const-ref and by-value class types, bound "
             "arguments, blocks, moves, recycled positions) under ASan/UBSan.", '6/C01'),
     'C09': ("Machine-checked for ARBITRARY re-entrant slot bodies and nesting depth: in one emission no connection is invoked twice; during the walk no entry "
